@@ -71,6 +71,11 @@ func runC01(c *runCfg) error {
 		cfg := simpleCfg(64)
 		cfg.auth = auth
 		cfg.authPW = []byte("secret")
+		// "session middleware" is part of the authenticated phase: two of three cases register middlewares, which
+		// must not run for a connection whose credentials were not accepted
+		if id%3 != 0 {
+			cfg.mws = []bool{true, true}[:1+id%2]
+		}
 		var cs *caseT
 		// lock-step delivery needs chunks that are whole messages
 		whole := len(pw) >= 5 && int(uint32(pw[1])<<24|uint32(pw[2])<<16|uint32(pw[3])<<8|uint32(pw[4]))+1 == len(pw)
@@ -363,6 +368,18 @@ func runC12(c *runCfg) error {
 			big.limit = 0
 			emit("long_value", big, cat(startupMsg("user", "u", "options", strings.Repeat("-c a=b ", n/7), "application_name", "x"), cont), nil)
 		}
+		// many parameters: every pair of the packet counts, the last assignment of a key included, however many
+		// pairs come before it
+		for _, n := range []int{60, 127, 128, 129, 400, 2000} {
+			big := cfg
+			big.limit = 0
+			kv := []string{"user", "guest", "database", "first"}
+			for k := 0; k < n; k++ {
+				kv = append(kv, fmt.Sprintf("key%04d", k), fmt.Sprintf("value %d", k))
+			}
+			kv = append(kv, "user", "alice", "application_name", "late", "database", "last")
+			emit("many_parameters", big, cat(startupMsg(kv...), cont), nil)
+		}
 		emit("short", cfg, []byte{0, 0, 0, 8, 0}, nil)
 		emit("short", cfg, untypedMsg([]byte{0, 3}), nil)
 		emit("badlen", cfg, cat(be32b(3), cont), nil)
@@ -530,6 +547,8 @@ func runC10(c *runCfg) error {
 		if b, err := os.ReadFile(c.replay); err == nil && bytes.Contains(b, []byte("(tlsobs ")) {
 			runC10TLS(c, tlsOnly(c))
 			return nil
+		} else if err == nil && bytes.Contains(b, []byte("(c14 ")) {
+			return replayC14(c)
 		} else if err == nil && bytes.Contains(b, []byte("(c10huge ")) {
 			runC10streamed(c)
 			return nil
@@ -537,6 +556,7 @@ func runC10(c *runCfg) error {
 		return replaySessions(c)
 	}
 	runC10TLS(c, nil)
+	runC10copyrows(c)
 	id := 0
 	limits := []int{1, 2, 5, 8, 15, 16, 40}
 	if c.tier == "thorough" {
@@ -590,6 +610,18 @@ func runC10(c *runCfg) error {
 			// declared lengths below the minimum: 0..3 (the stream continues after the length field)
 			for dl := 0; dl < 4; dl++ {
 				emitSession(c, lockCase(id, "badlen", cfg, su, [][]byte{msgLen(t, uint32(dl), nil), mSync()}))
+				id++
+			}
+			// the same and oversized messages with their followers in ONE client write (pipelined): the rejected message is
+			// skipped in exactly its declared length, whatever else has already arrived behind it
+			for dl := 0; dl < 4; dl++ {
+				emitSession(c, flatCase(id, "pipelined_badlen", cfg, cat(su, msgLen(t, uint32(dl), nil), mSync(), mFlush(), mSync()), nil))
+				id++
+			}
+			for _, extra := range []int{1, 7, 40} {
+				body := bytes.Repeat([]byte{'x'}, L+extra)
+				body[len(body)-1] = 0
+				emitSession(c, flatCase(id, "pipelined_oversize", cfg, cat(su, msg(t, body), mSync(), mFlush(), mSync()), nil))
 				id++
 			}
 			// huge declared lengths with truncated input
@@ -755,8 +787,30 @@ func runC19shared(c *runCfg, idp *int) {
 	}
 }
 
+// the lifecycle inside TLS: middlewares before the first ReadyForQuery, the terminate hook once, and Terminate closes
+// the connection — the secure one, with its closing record — like the plaintext one
+func runC19TLS(c *runCfg, only map[string]bool) {
+	id := 7100000
+	for k := 0; k < 6; k++ {
+		cfg := simpleCfg(1024)
+		cfg.tls = true
+		cfg.mws = []bool{true, true}[:k%3]
+		cfg.term = []string{"none", "ok", "err"}[k%3]
+		msgs := [][]byte{startupMsg("user", "u"), mQuery([]byte("select 1"))}
+		if k%2 == 1 {
+			msgs = append(msgs, mParse(nil, []byte("select 1"), 0), mBind(nil, nil, nil, nil, nil), mExecute(nil, 0), mSync())
+		}
+		msgs = append(msgs, mTerminate())
+		emitTLS(c, only, &id, "tls_terminate", cfg, sslRequest(), nil, msgs, "")
+	}
+}
+
 func runC19(c *runCfg) error {
 	if c.replay != "" {
+		if b, err := os.ReadFile(c.replay); err == nil && bytes.Contains(b, []byte("(tlsobs ")) {
+			runC19TLS(c, tlsOnly(c))
+			return nil
+		}
 		if b, err := os.ReadFile(c.replay); err == nil && bytes.Contains(b, []byte(" shared_options ")) {
 			id := 0
 			runC19shared(c, &id)
@@ -765,8 +819,42 @@ func runC19(c *runCfg) error {
 		return replaySessions(c)
 	}
 	g := &gen{rng: c.rng}
+	runC19TLS(c, nil)
 	id := 700000
 	runC19shared(c, &id)
+	// a connection set up while the server is closing (accepted just before Close): as long as it is served up to a
+	// ReadyForQuery, the middlewares run — once, in order, before it — and a failing one ends the connection
+	for nm := 1; nm <= 3; nm++ {
+		for fail := -1; fail < nm; fail++ {
+			for _, auth := range []string{"none", "pw"} {
+				cfg := simpleCfg(256)
+				for i := 0; i < nm; i++ {
+					cfg.mws = append(cfg.mws, i != fail)
+				}
+				cfg.auth = auth
+				cfg.authPW = []byte("secret")
+				msgs := [][]byte{mQuery([]byte("select 1")), mTerminate()}
+				if auth != "none" {
+					msgs = append([][]byte{mPassword([]byte("secret"))}, msgs...)
+				}
+				cs := lockCase(id, "closing", cfg, startupMsg("user", "late"), msgs)
+				if auth != "none" {
+					cs.pre = 2
+				}
+				reg := &registry{recs: map[string]*recorder{}}
+				conn, rec := newSession(cs, reg)
+				srv, err := buildServer(&cs.cfg, reg)
+				if err != nil {
+					panic(err)
+				}
+				srv.Close()
+				o := driveSession(cs, conn, rec, srv)
+				c.out.line("(sess " + cs.id + " " + cs.class + " " + cs.sxHead() + " (serverclosed 1) " + o.sx(false) + ")")
+				c.stat("class_closing")
+				id++
+			}
+		}
+	}
 	id = 0
 	hist := [][][]byte{
 		{mQuery([]byte("select 1"))},
